@@ -86,6 +86,7 @@ type httpReq struct {
 	seen   bool
 	direct bool // a meta status decided the answer
 	method string
+	rid    string // resource id of a GET / HEAD
 }
 
 type stepRec struct {
@@ -578,6 +579,11 @@ func (w *world) snapshotLines() []string {
 		}
 		out = append(out, w.absSubject(strings.Join(parts, " ")))
 	}
+	// by abstract entry name (the model sorts its index the same way; real connection ids inside
+	// names such as cid.<cid>.m sort differently from c0, c1, ..., c10)
+	sort.SliceStable(out, func(i, j int) bool {
+		return strings.SplitN(out[i], " ", 3)[1] < strings.SplitN(out[j], " ", 3)[1]
+	})
 	conns := w.serv.VerifSnapshot()
 	sort.Slice(conns, func(i, j int) bool { return w.cname(conns[i].CID) < w.cname(conns[j].CID) })
 	for _, c := range conns {
@@ -861,6 +867,7 @@ func specValidPart(p string) bool {
 func (w *world) httpDo(method, path, rawQuery, body string) {
 	name := fmt.Sprintf("h%d", len(w.https))
 	var stim string
+	getRID := ""
 	switch method {
 	case "PUT":
 		rid := server.PathToRID(path, rawQuery, "/api/")
@@ -889,12 +896,13 @@ func (w *world) httpDo(method, path, rawQuery, body string) {
 		}
 	default:
 		rid := server.PathToRID(path, rawQuery, "/api/")
+		getRID = rid
 		stim = "http " + name + " " + method + " " + rid
 		if !specValidRID(rid, true) || (len(path) > len("/api/") && path[len(path)-1] == '/') {
 			stim = "http " + name + " GET404"
 		}
 	}
-	h := &httpReq{name: name, rec: httptest.NewRecorder(), done: make(chan struct{}), conn: fmt.Sprintf("c%d", len(w.cidName)), method: method}
+	h := &httpReq{name: name, rec: httptest.NewRecorder(), done: make(chan struct{}), conn: fmt.Sprintf("c%d", len(w.cidName)), method: method, rid: getRID}
 	w.https = append(w.https, h)
 	w.apply(stim, func() {
 		url := "http://example.org" + path
